@@ -356,6 +356,7 @@ type vfSpec struct {
 	HookFail      map[string]int // prerestart|restarted|prelaunch -> 1 error, 2 panic (prelaunch: only on restart unless PrelaunchFailFirst)
 	PrelaunchFailFirst bool
 	Subs          []int         // stream event types subscribed at launch
+	UnsubAtLaunch []int         // ... and unsubscribed again right away (partial unsubscribe; often the only subscriber of that type)
 	Loop          time.Duration // Loop job to self started at launch
 	LoopID        int           // message id carried by the launch Loop job (0: untracked)
 	Once          time.Duration // harmless Once job to self at launch (leaves a fired one-shot entry behind)
@@ -573,6 +574,9 @@ func (a *vfActor) onLaunch(ctx vivid.ActorContext) {
 	inc := a.incarnation(path)
 	for _, t := range a.spec.Subs {
 		ctx.EventStream().Subscribe(ctx, vfStreamEvOf(t))
+	}
+	for _, t := range a.spec.UnsubAtLaunch { // a partial unsubscribe: the actor keeps its other subscriptions
+		ctx.EventStream().Unsubscribe(ctx, vfStreamEvOf(t))
 	}
 	if a.spec.Loop > 0 {
 		lid := -1
